@@ -10,10 +10,11 @@
      smooth.py : _small_cholesky_factorize_block   -> small_factor_block
                  _small_cholesky_solve(_block)      -> small_solve / small_solve_block
                  _small_cholesky_factorize_solve_block -> small_factor_solve_block
-                 _tile_cholesky_factorize_block     -> tile_factor_block  (densify by elemid,
-                     wp.tile_cholesky_inplace(fill_mode="upper") = upper Cholesky factor with the
-                     strict lower part zeroed, as observed on Warp 1.17)
-                 _tile_cholesky_solve_block         -> tile_solve_block (U^T z = y, U x = z)
+                 _tile_cholesky_factorize_block     -> tile_factor  (densify by elemid, then
+                     wp.tile_cholesky_inplace(fill_mode="upper") modelled as the same upper Cholesky
+                     algorithm with the strict lower part zeroed, as observed on Warp 1.17)
+                 _tile_cholesky_solve_block         -> small_solve (U^T z = y, U x = z; Warp builtin
+                     wp.tile_cholesky_solve modelled as the scalar substitution)
                  _qLD_acc, _qLDiag_div, _factor_i_sparse -> qLD_acc, factor_i_sparse
                  _solve_LD_sparse_fused (CPU launch: block_dim = 1, one thread per world)
                                                    -> solve_LD_sparse
